@@ -1594,8 +1594,11 @@ func zipAllInnerSubscriptions[T any](outerCtx context.Context, sources []Observa
 		// free memory
 		mu.Lock()
 
-		completed = nil
-		values = nil
+		// keep the outer slices: a notification in flight on another goroutine still indexes them
+		for i := range values {
+			completed[i] = true
+			values[i] = nil
+		}
 
 		mu.Unlock()
 	}
